@@ -20,7 +20,8 @@ round 4, names ending in d: bookkeeping outside the main algorithms - queues, we
 what keeps listeners alive; round 6, names ending in f: situations rather than sites - one object in two roles, edges added late,
 incidental orders, several sends per transaction into defer/split, scoped transactions, wide fans, router corner cases; round 7, names ending in g: more situations - listeners inside transactions, first events of accumulators,
 same-inner switches, keep-alive only through listeners, unlisten corner cases, lift diamonds, nested sends, long-delayed lazies; round 8, names ending in h: collector hand-over sequences, posts from everywhere,
-deep nesting and re-entrancy, router compositions, contexts and threads taking turns);
+deep nesting and re-entrancy, router compositions, contexts and threads taking turns; round 9, names ending in i: small wrappers with coincident events,
+handle management, listener handles, StreamLoop, lift4-6, sink sends - away from the propagation loop);
 confirmed with `tools/confirm_mutant.sh`; run with `tools/try_mutant.py` (quick tier). `detected by` lists the checks that
 raised a VIOLATION with the change applied to /repo (after strengthening, where the notes say so). `tools/run_seeded.sh`
 re-applies every change and runs the check of its own property: every line must say DETECTED, except C03f and C19h (documented misses:
